@@ -23,8 +23,11 @@ class Gone(Exception):
 
 class OnionWorld:
     def __init__(self, seed=0, names=("o", "r1", "r2", "x"), exits=("x",), cands=None, first=None, settings=None,
-                 origins=("o",), suspend_join=False):
+                 origins=("o",), suspend_join=False, overlay_factory=None):
         from ipv8.messaging.anonymization.community import TunnelCommunity
+        if overlay_factory is not None:
+            # additive option (G06): the nodes run the class the factory returns (a subclass of TunnelCommunity)
+            TunnelCommunity = overlay_factory(self, TunnelCommunity)
         self.suspend_join = suspend_join
         self.held_joins = []    # (node, real circuit id, datagram seq, future): on_create tasks waiting in should_join_circuit
         self.delivering = 0
@@ -95,7 +98,7 @@ class OnionWorld:
         for name in ("create_circuit", "send_data", "remove_circuit", "exit_return", "vanish", "node_remove_relay",
                      "node_remove_exit", "expect_quiet", "deliver", "lose", "dup", "tamper", "tamper_at", "tamper_header",
                      "splice", "inject", "adv_create", "adv_plain", "forge_destroy", "mangle_answer", "link_e2e",
-                     "send_e2e", "rp_forge", "transports_ready", "send_test", "join_resume"):
+                     "send_e2e", "rp_forge", "transports_ready", "transport4_ready", "send_test", "join_resume", "cancel_ready"):
             setattr(self, name, self._stepper(getattr(self, name)))
 
     def _stepper(self, fn):
@@ -381,6 +384,14 @@ class OnionWorld:
         self.loop.call(ov.send_data, c.hop.address, c.circuit_id, ("1.2.3.4", 5000), ("0.0.0.0", 0), data)
         return self.log("SendData", o=o, cid=spec_cid, p=p)
 
+    def cancel_ready(self, o, spec_cid):
+        """the application stops waiting for the circuit (asyncio.wait_for(circuit.ready, t) ran out / its task was cancelled):
+        the future the circuit exposes is cancelled. Nothing the specification models changes."""
+        c = self.ov[o].circuits[self.real_cid(spec_cid)]
+        c.ready.cancel()
+        self.loop.drain()
+        return self.log("Noop", what="%s:ready-cancelled" % o)
+
     def remove_circuit(self, o, spec_cid, destroy):
         ov = self.ov[o]
         self.loop.call(ov.remove_circuit, self.real_cid(spec_cid), "driver", False, 1 if destroy else False)
@@ -447,17 +458,35 @@ class OnionWorld:
     def transports_ready(self, n, spec_cid):
         """both outside sockets of that exit socket come into existence (create_transports continues)"""
         sock = self.ov[n].exit_sockets[self.real_cid(spec_cid)]
+        flushes = bool(sock.queue) or sock.transport_ipv4 is None
         for _ in range(2):
             for protocol, fut in list(self.net.pending_transports):
                 if not fut.done() and getattr(getattr(protocol, "received_cb", None), "__self__", None) is sock:
                     self.loop.call(fut.set_result, None)
                     self.loop.drain()
-        return self.log("TransportsReady", n=n, cid=spec_cid)
+        # (after Transport4Ready, with nothing waiting, the second socket changes nothing the specification sees)
+        return self.log("TransportsReady", n=n, cid=spec_cid) if flushes else self.log("Noop", what="%s:second-transport" % n)
+
+    def transport4_ready(self, n, spec_cid):
+        """only the first (IPv4) outside socket comes into existence; the IPv6 one is still being opened"""
+        sock = self.ov[n].exit_sockets[self.real_cid(spec_cid)]
+        if sock.transport_ipv4 is not None:
+            return None
+        for protocol, fut in list(self.net.pending_transports):
+            if not fut.done() and getattr(getattr(protocol, "received_cb", None), "__self__", None) is sock:
+                self.loop.call(fut.set_result, None)
+                self.loop.drain()
+                return self.log("Transport4Ready", n=n, cid=spec_cid)
+        return None
 
     def _auto_transports(self):
-        if self.auto_transports:
+        mode = getattr(self, "transport_mode", None) or ("auto" if self.auto_transports else "hold")
+        if mode == "auto":
             for n, c in self.pending_sockets():
                 self.transports_ready(n, c)
+        elif mode == "half":
+            for n, c in self.pending_sockets():
+                self.transport4_ready(n, c)
 
     def exit_return(self, x, spec_cid, p):
         ov = self.ov[x]
